@@ -28,7 +28,7 @@ def run(tier):
     return ec.run_property(PID, tier, jobs,
                            'generated programs paused at a random step and resumed a random number of steps later (catalogue shapes: pause at '
                            'steps 2/6/10/14, resume 4 steps later); non-trivial = distinct runs in which the execution was observed PAUSED',
-                           _nontrivial)
+                           _nontrivial, prescribed=True)
 
 
 def replay(path):
